@@ -6,10 +6,11 @@ from vlib import run_tlc, cargo_build, outdir, ToolError
 PER_MODULE = 60
 
 
-def grammar_cases(pid):
+def grammar_cases(pid, tier="quick"):
     d = outdir(pid)
     vec = os.path.join(d, "grammar.ndjson")
-    t = run_tlc(pid, "MC_Grammar", "SPECIFICATION Spec\nINVARIANTS WellFormed Emit\nCHECK_DEADLOCK FALSE\n", replay_to=vec, coverage=False, heap="4g")
+    t = run_tlc(pid, "MC_Grammar", "SPECIFICATION Spec\nCONSTANTS\n  K = %d\nINVARIANTS WellFormed Emit\nCHECK_DEADLOCK FALSE\n" % (1 if tier == "quick" else 6),
+                replay_to=vec, coverage=False, heap="8g", timeout=3600)
     if t.violation:
         raise ToolError("Grammar.tla: " + t.violation)
     cases = vlib.read_ndjson(vec)
@@ -48,7 +49,7 @@ def norm(x):
 
 def run(v):
     d = outdir("C07")
-    t, cases = grammar_cases("C07")
+    t, cases = grammar_cases("C07", v.tier)
     v.add_tlc("MC_Grammar", t)
     cargo_build()
     mods = modules_of(cases, d, "Gm")
